@@ -306,6 +306,12 @@ var opTable = map[string]opSpec{
 	"K.Touch":  {[]string{"k"}, 0, true, func(o []*obj, p []float64) []uint64 { o[0].kde.PDF(0); return nil }},
 	// UDist / InvCDF
 	"UD.CDF": {[]string{"ud"}, 1, false, func(o []*obj, p []float64) []uint64 { return f2(o[0].ud.CDF(p[0]), o[0].ud.PMF(math.Floor(p[0]))) }},
+	"UD.At": {[]string{"ud"}, 1, false, func(o []*obj, p []float64) []uint64 {
+		// a point of the support chosen by the scalar: small, central and large U all occur
+		d := o[0].ud
+		u := math.Floor(math.Abs(p[0])/(1+math.Abs(p[0]))*float64(d.N1*d.N2)*2.2) / 2
+		return f2(d.CDF(u), d.PMF(u))
+	}},
 	"UD.Inv": {[]string{"ud"}, 1, false, func(o []*obj, p []float64) []uint64 { return f1(stats.InvCDF(*o[0].ud)(math.Abs(p[0]) / (1 + math.Abs(p[0])))) }},
 	// StreamStats / hist
 	"St.Read": {[]string{"st"}, 0, false, func(o []*obj, p []float64) []uint64 { return o[0].snapshot() }},
@@ -635,6 +641,12 @@ func genC20(w *bufio.Writer, tier string, rng *rand.Rand) {
 		add("lg", fmt.Sprintf("[lg,%s,%s,10]", fmtF(0.5+float64(rng.Intn(10))), fmtF(50+float64(rng.Intn(5000)))))
 		add("i", fmt.Sprintf("[i,%s]", fmtInts(rng.Perm(4+rng.Intn(6)))))
 		add("ud", fmt.Sprintf("[ud,%d,%d,%s]", 3, 4, []string{"[]", "[2,4,1]", "[1,1,1,1,1,1,1]"}[rng.Intn(3)]))
+		// distributions that share one sample size and differ in the other, both orders, one tied
+		um, ua := 2+rng.Intn(4), 5+rng.Intn(7)
+		add("ud", fmt.Sprintf("[ud,%d,%d,[]]", um, ua))
+		add("ud", fmt.Sprintf("[ud,%d,%d,[]]", um, ua+1+rng.Intn(4)))
+		add("ud", fmt.Sprintf("[ud,%d,%d,[]]", ua+rng.Intn(3), um))
+		add("ud", fmt.Sprintf("[ud,%d,%d,%s]", um, ua, fmtInts(append([]int{2, um + ua - 3}, 1))))
 
 		pickObj := func(kind string) int {
 			var c []int
@@ -652,10 +664,25 @@ func genC20(w *bufio.Writer, tier string, rng *rand.Rand) {
 				parts = append(parts, fmt.Sprint(pickObj(kk)))
 			}
 			for i := 0; i < spec.scalars; i++ {
-				v := []float64{0, 1, -1, 0.25, 0.5, 0.75, 0.95, 2.5, -3.5}[rng.Intn(9)]
+				v := []float64{0, 1, -1, 0.25, 0.5, 0.75, 0.95, 2.5, -3.5, 0.05, 0.1, 0.15, 0.4, 6, 19}[rng.Intn(15)]
 				parts = append(parts, fmtF(v))
 			}
 			return "[" + strings.Join(parts, ",") + "]"
+		}
+		// each program dwells on a few operations (half of its calls): the same entry point is
+		// called again and again with different objects and scalars
+		focus := make([]string, 4)
+		for i := range focus {
+			focus[i] = names[rng.Intn(len(names))]
+		}
+		if rng.Intn(3) == 0 {
+			focus = []string{"UD.At", "UD.CDF", "MannWhitney", "UD.At"}
+		}
+		pickName := func() string {
+			if rng.Intn(2) == 0 {
+				return focus[rng.Intn(len(focus))]
+			}
+			return names[rng.Intn(len(names))]
 		}
 		// prefix: a mix incl. the documented mutators; every KDE is touched (lazy bandwidth)
 		var pre []string
@@ -665,12 +692,12 @@ func genC20(w *bufio.Writer, tier string, rng *rand.Rand) {
 			}
 		}
 		for i := 0; i < 4+rng.Intn(10); i++ {
-			pre = append(pre, mkCall(names[rng.Intn(len(names))]))
+			pre = append(pre, mkCall(pickName()))
 		}
 		// block: non-mutating ops only
 		var block []string
 		for len(block) < 12+rng.Intn(28) {
-			nm := names[rng.Intn(len(names))]
+			nm := pickName()
 			if opTable[nm].mut {
 				continue
 			}
